@@ -16,15 +16,27 @@ def configs(tier):
     cs = []
     def add(sp, ops, pas=0, **kw):
         kw.setdefault('max_paths', 40); kw.setdefault('timeout', 30); kw.setdefault('strategy', 'tree'); kw.setdefault('solver_timeout_ms', 5000)
-        cs.append(Config('%s-%s-p%d' % (short(sp), ops.replace(',', ''), pas), 'C08', [sp, ops, pas], **kw))
+        cs.append(Config('%s-%s-p%d' % (short(sp), ops.replace(',', '').replace('^', 'l').replace('!', 'n'), pas), 'C08', [sp, ops, pas], **kw))
     if tier == 'quick':
         add(spec('global', 'clenshaw-curtis', 2, 1, 1), 'A,A'); add(spec('global', 'rleja', 2, 1, 2), 'U,Sg', 1); add(spec('global', 'leja', 2, 1, 1), 'K')
         add(spec('sequence', 'rleja', 2, 1, 1), 'A,A'); add(spec('sequence', 'leja', 2, 1, 2), 'Sg,U,X,A', 0, max_paths=24); add(spec('sequence', 'min-delta', 2, 1, 1), 'K', 1)
         add(spec('localp', 'localp', 2, 1, 1, order=1), 'Sc,Sf'); add(spec('localp', 'semi-localp', 2, 1, 1, order=2), 'Ss,Sc', 1); add(spec('localp', 'localp-zero', 2, 1, 1, order=1), 'K')
+        add(spec('global', 'clenshaw-curtis', 2, 1, 1), 'A^!,Udv'); add(spec('sequence', 'rleja', 2, 1, 1), 'A^!,Uv'); add(spec('fourier', 'fourier', 2, 1, 1), 'A^!,Udv'); add(spec('localp', 'localp', 2, 1, 1, order=1), 'Sc^!,Sfv')
         add(spec('wavelet', 'wavelet', 2, 1, 1, order=1), 'Sc'); add(spec('fourier', 'fourier', 2, 1, 1), 'A', 0); add(spec('fourier', 'fourier', 2, 1, 1), 'K', 1)
     else:
         for rule in ('clenshaw-curtis', 'fejer2', 'rleja', 'leja', 'rleja-odd', 'min-delta', 'gauss-patterson', 'rleja-double2'):
             for ops, p in (('A,A', 0), ('U,A', 1), ('A,X,A', 0), ('K', 0), ('K', 1), ('A,U,K', 0)): add(spec('global', rule, 2, 1, 1), ops, p, max_paths=80)
+        for rule in ('clenshaw-curtis', 'fejer2', 'rleja', 'leja', 'gauss-patterson', 'gauss-legendre', 'chebyshev'):
+            for ops in ('A^!,Udv', 'A^!,Uv', 'U^!,Udv', 'A^!,Av', 'A^!,Ud', 'A^,Udv,A'):
+                if rule in ('gauss-legendre', 'chebyshev') and 'A' in ops: continue
+                add(spec('global', rule, 2, 1, 1), ops, 0, max_paths=80)
+        for rule in ('leja', 'rleja'):
+            add(spec('global', rule, 2, 1, 1), 'Sg^!,Udv', 0, max_paths=80); add(spec('sequence', rule, 2, 1, 1), 'Sg^!,Udv', 0, max_paths=80)
+            for ops in ('A^!,Udv', 'A^!,Uv', 'U^!,Udv', 'A^!,Av', 'A^,Udv,A'): add(spec('sequence', rule, 2, 1, 1), ops, 0, max_paths=80)
+        for ops in ('A^!,Udv', 'A^!,Uv', 'U^!,Udv', 'A^!,Av'): add(spec('fourier', 'fourier', 2, 1, 1), ops, 0, max_paths=60)
+        for rule in LOCAL_RULES:
+            for ops in ('Sc^!,Sfv', 'Sf^!,Scv', 'Sc^!,K'): add(spec('localp', rule, 2, 1, 1, order=1), ops, 0, max_paths=80)
+        add(spec('wavelet', 'wavelet', 2, 1, 1, order=1), 'Sc^!,Scv', 0, max_paths=60)
         for rule in ('leja', 'rleja'):
             add(spec('global', rule, 2, 1, 2), 'Sg,Sg', 0, max_paths=80); add(spec('global', rule, 2, 1, 1), 'Sg,U', 1, max_paths=80)
         for rule in SEQUENCE_RULES:
